@@ -723,6 +723,68 @@ theorem isNumTok_intDec (i : Int) : isNumTok (intDec i) = true := by
     rw [numStep_digit_run _ (Or.inl rfl)]
     split <;> rfl
 
+/-! ### a form of the string encoder that evaluates
+
+  `KeyJson.quoteBody` is compiled by well-founded recursion (its three-byte look-ahead), so `decide` cannot run it.
+  `quoteBodyF` is the same function by recursion on a byte budget; `jsonStrF` the encoder built on it. -/
+
+def quoteBodyF : Nat → Bytes → Bytes
+  | 0, _ => []
+  | _ + 1, [] => []
+  | f + 1, b :: rest =>
+    match rest with
+    | b1 :: b2 :: rest' =>
+      if b.toNat = 0xE2 ∧ b1.toNat = 0x80 ∧ b2.toNat = 0xA8 then u202x 0x38 ++ quoteBodyF f rest'
+      else if b.toNat = 0xE2 ∧ b1.toNat = 0x80 ∧ b2.toNat = 0xA9 then u202x 0x39 ++ quoteBodyF f rest'
+      else escByte b ++ quoteBodyF f rest
+    | _ => escByte b ++ quoteBodyF f rest
+
+theorem quoteBodyF_eq (a : Bytes) : ∀ f, a.length ≤ f → quoteBodyF f a = quoteBody a := by
+  induction a using quoteBody.induct with
+  | case1 => intro f _; cases f <;> simp [quoteBodyF, quoteBody]
+  | case2 b b1 b2 rest' h ih =>
+    intro f hf
+    match f, hf with
+    | f + 1, hf =>
+      rw [quoteBodyF, quoteBody, if_pos h]
+      simp only [if_pos h]
+      rw [ih f (by simp at hf; omega)]
+  | case3 b b1 b2 rest' hn h ih =>
+    intro f hf
+    match f, hf with
+    | f + 1, hf =>
+      rw [quoteBodyF, quoteBody, if_neg hn, if_pos h]
+      simp only [if_neg hn, if_pos h]
+      rw [ih f (by simp at hf; omega)]
+  | case4 b b1 b2 rest' h1 h2 ih =>
+    intro f hf
+    match f, hf with
+    | f + 1, hf =>
+      rw [quoteBodyF, quoteBody, if_neg h1, if_neg h2]
+      simp only [if_neg h1, if_neg h2]
+      rw [ih f (by simp at hf ⊢; omega)]
+  | case5 b rest hne ih =>
+    intro f hf
+    match f, hf with
+    | f + 1, hf =>
+      have hq : quoteBody (b :: rest) = escByte b ++ quoteBody rest := by
+        match rest, hne with
+        | [], _ => simp [quoteBody]
+        | [_], _ => simp [quoteBody]
+        | b1 :: b2 :: t, hne => exact (hne b1 b2 t rfl).elim
+      rw [hq, ← ih f (by simp at hf; omega)]
+      match rest, hne with
+      | [], _ => simp [quoteBodyF]
+      | [_], _ => simp [quoteBodyF]
+      | b1 :: b2 :: t, hne => exact (hne b1 b2 t rfl).elim
+
+/-- `jsonStrModel`, in a form `decide` can run -/
+def jsonStrF (s : Bytes) : Bytes := 0x22 :: (quoteBodyF (coerce s).length (coerce s) ++ [0x22])
+
+theorem jsonStrF_eq : jsonStrF = jsonStrModel := by
+  funext s
+  simp [jsonStrF, jsonStrModel, goString, quote, quoteBodyF_eq _ _ (Nat.le_refl _)]
+
 /-! ### the encoder of the CLI -/
 
 variable {S : Type} [ScoreOps S]
